@@ -493,9 +493,20 @@ class Run:
         with open(os.path.join(evdir, "%s.json" % self.pid), "w") as f:
             json.dump(ev, f, indent=1, sort_keys=True, default=repr)
             f.write("\n")
+        # the generated case files (and their .vo/.glob) are scratch: disk space is limited, so they go as soon as the run is
+        # over; after a violation the directory is kept for inspection (VERIF_KEEP_RUN=1 keeps it always), and older
+        # directories of this property are pruned either way (the replay file is what a report refers to)
         try:
-            if not os.listdir(self.rundir):
-                os.rmdir(self.rundir)
+            import shutil
+            keep = bool(viol_lines) or os.environ.get("VERIF_KEEP_RUN") == "1"
+            if not keep:
+                shutil.rmtree(self.rundir, ignore_errors=True)
+            import glob as _glob
+            old = sorted((d for d in _glob.glob(os.path.join(BUILD, "run_%s_*" % self.pid)) if d != self.rundir),
+                         key=os.path.getmtime)
+            for d in old[:-2]:
+                if time.time() - os.path.getmtime(d) > 3600:
+                    shutil.rmtree(d, ignore_errors=True)
         except OSError:
             pass
         for l in viol_lines:
